@@ -207,8 +207,9 @@ class BranchWInternalsComponent(BranchComponent):
             else:
                 set_entry_check_repeat(branch_w_internals_pit, DO, net[tbl].inner_diameter_mm.values / 1000., internal_branch_number,
                     has_internals)
-            set_entry_check_repeat(branch_w_internals_pit, LC, net[tbl].loss_coefficient.values, internal_branch_number,
-                has_internals)
+            # the loss coefficient belongs to the whole branch: every section carries its share (like the length)
+            set_entry_check_repeat(branch_w_internals_pit, LC, net[tbl].loss_coefficient.values / internal_branch_number,
+                internal_branch_number, has_internals)
 
             branch_w_internals_pit[:, AREA] = branch_w_internals_pit[:, D] ** 2 * np.pi / 4
             branch_w_internals_pit[:, QEXT] = 0.0
